@@ -1,30 +1,45 @@
 """Regenerate lean/CopVerif/Gen/Effects.lean: the **write-effect IR** (C20, DESIGN 5 "C20") of every
 public entry point of `copulas` and of every function of `copulas` reachable from one.
 
-Abstraction (flow-insensitive, context-insensitive, field-based may-alias analysis):
+Abstraction (flow-insensitive, field-based may-alias analysis; call-site sensitive for small helpers):
 
-* every Python local gets SSA versions (`x#0`, `x#1`, …); joins of branches and loop back-edges are
+* every Python local gets SSA versions (`x#0`, `x#1`, ...); joins of branches and loop back-edges are
   extra `alias` edges; names captured by nested functions or assigned under `try` are single cells;
-* `alias x y`  – assignment of a name / attribute / basic index or slice / `.T` / `.to_numpy()` /
-  `np.asarray` / tuple unpacking / container display holding `y` / element of an iterable;
-* `fresh x`    – `.copy()`, arithmetic, fancy or boolean indexing, `np.array(..)`, shallow-copy
-  constructors (`list(x)`, `sorted(x)`), constructor calls, results of whitelisted pure externals;
-* `write x`    – subscript or attribute store into `x`, augmented assignment on `x` (unless `x` is a
+* every value travels on two channels: the variable `x` (the object itself) and its *content* variable
+  `x°` (everything reachable INSIDE the object: list elements, dict values, attributes).  Storing `v` into
+  a container `c` adds `c° := v, v°` (NOT `c := v`: appending to a list that holds a parameter is not a
+  write to the parameter); loading an element / iterating / a view gives `e := c, c°`.  The content
+  variables of the entry point's parameters are caller-owned too (deep ownership);
+* `alias x y`  - assignment of a name / attribute / basic index or slice / `.T` / `.to_numpy()` /
+  `np.asarray` / `pd.DataFrame(x)` / tuple unpacking / element of an iterable;
+* `fresh x`    - `.copy()`, arithmetic, fancy or boolean indexing, `np.array(..)`, shallow-copy
+  constructors (`list(x)`, `sorted(x)`: new container, same contents), constructor calls, results of
+  whitelisted pure externals, container displays;
+* `write x`    - subscript or attribute store into `x`, augmented assignment on `x` (unless `x` is a
   known immutable scalar), mutating methods (`append/insert/add/update/remove/sort/pop/extend/clear/
-  fill/…`), `inplace=True`, `out=`, arguments of *unknown* external functions;
-* `call f args ret` – callee inside `copulas`: resolved statically where the receiver is known
-  (`self`, `super()`, a class name, a local built by a constructor) and by *method name over all
-  classes* otherwise; callables that escape as values (bound methods stored in attributes, closures
-  passed to solvers) are possible targets of every call whose callee cannot be resolved;
+  fill/...`), `inplace=True`, `out=`, every argument of an *unknown* external function;
+* `call f args rets` - callee inside `copulas`: resolved statically where the receiver is known
+  (`self`, `super()`, a class name, a local built by a constructor, an attribute under which only known
+  callables/classes were ever stored) and by *method name over all classes* otherwise; callables that
+  are STORED somewhere (bound methods kept in attributes or lists, closures handed to `copulas` code) are
+  possible targets of every call whose callee cannot be resolved; callables handed directly to external
+  solvers (`brentq(f, ..)`, `sorted(key=..)`) are called back on values aliasing the other arguments;
 * `self.<attr>` (any `<obj>.<attr>` where `<attr>` is an attribute defined in `copulas`) is ONE global
   variable `@attr`: storing into it is not a write to a caller-owned object, but aliasing a parameter
-  into it and writing through it later is caught.
+  into it and writing through it later (even in another public call: see the session check) is caught;
+* decorators of `copulas.utils` are instantiated per decorated function (the wrapper body with
+  `function` bound to the wrapped function, perfect forwarding of `*args/**kwargs`);
+* after translation every call to a small non-recursive closure-free function gets a private clone of
+  the callee (`inline_small`), so that e.g. the views returned by `split_matrix(X)` to different
+  callers are not merged.
 
 Anything that cannot be classified raises `pyast2lean.Untranslatable` (=> broken obligation).
+The program is shipped to Lean as text (`Model.Effects.decodeModule`); variable 0 is "nothing".
 
 Assumptions recorded for the harness (ASSUMPTIONS): parameters whose default is an int/float/str/bool
 literal are immutable scalars; callables supplied by the caller (the `f` of the root finders) do not
-mutate their arguments; the whitelist below states the effect of numpy/scipy/pandas/plotly calls.
+mutate their arguments (their result may alias them); `a + b` / `a * b` is arithmetic unless an operand
+is a list display or `list(..)`; the tables below state the effect of numpy/scipy/pandas/plotly calls.
 """
 import ast
 import os
@@ -251,9 +266,6 @@ class FnSpec:
         self.static = static
         self.is_lambda = is_lambda
         self.closure_self = None          # (cls) when a nested function sees the enclosing `self`
-
-    def has_self(self):
-        return self.cls is not None and not self.static and not self.is_lambda and self.nested_depth == 0
 
     nested_depth = 0
 
@@ -593,9 +605,6 @@ def inline_small(an, keep):
     fns = an.order
     n0 = len(fns)
     dynamic = {an.fns[k].idx for k in an.escaped if k in an.fns}
-    for site in an.unresolved:
-        for st in site['fn'].body:
-            pass
     callees = {f.idx: [st[1] for st in f.body if st[0] == 'call'] for f in fns}
     # functions on a call-graph cycle
     cyc = set()
